@@ -1,5 +1,7 @@
 import Pyxv.Proofs.JValLemmas
 import Pyxv.Proofs.ToJsonLemmas
+import Pyxv.Proofs.FromJsonLemmas
+import Pyxv.Model.OpsToJson
 /-!
 # C16 — the JSON intermediate form is a faithful, reloadable representation: property theorems
 
@@ -77,11 +79,11 @@ theorem dump_stable (del : List Str) (slots : Dict) (hn : (slots.map Prod.fst).N
     ownDump del (reloadSlots (slots.map Prod.fst) (ownDump del slots)) = ownDump del slots := by
   rw [reloadSlots_ownDump del slots hn, ownDump_eq_filter, ownDump_eq_filter, filter_map_keeps]
 
-example : ownDump ["extra_data".toList] (reloadSlots ["name".toList, "bind".toList, "label".toList]
-      (ownDump ["extra_data".toList] [("name".toList, .str "g".toList), ("bind".toList, .obj [("relevant".toList, .str "1".toList)]),
-        ("label".toList, .null)]))
-    = ownDump ["extra_data".toList] [("name".toList, .str "g".toList), ("bind".toList, .obj [("relevant".toList, .str "1".toList)]),
-        ("label".toList, .null)] :=
+example : ownDump [k!"extra_data"] (reloadSlots [k!"name", k!"bind", k!"label"]
+      (ownDump [k!"extra_data"] [(k!"name", .str k!"g"), (k!"bind", .obj [(k!"relevant", .str k!"1")]),
+        (k!"label", .null)]))
+    = ownDump [k!"extra_data"] [(k!"name", .str k!"g"), (k!"bind", .obj [(k!"relevant", .str k!"1")]),
+        (k!"label", .null)] :=
   dump_stable _ _ (by decide)
 
 /-- Every slot that the class's `to_json_dict` does not delete comes back from dump + reload with its value
@@ -94,11 +96,11 @@ theorem survey_json_roundtrip_slots (del : List Str) (slots : Dict) (hn : (slots
   rw [reloadSlots_ownDump del slots hn, lookup_map_snd _ slots hn k v hm]
   simp [keeps, hk]
 
-example : lookup "label".toList (reloadSlots ["name".toList, "label".toList]
-    (ownDump ["extra_data".toList] [("name".toList, .str "g".toList), ("label".toList, .str "L".toList)]))
-    = some (.str "L".toList) := by
-  have := survey_json_roundtrip_slots ["extra_data".toList] [("name".toList, .str "g".toList), ("label".toList, .str "L".toList)]
-    (by decide) "label".toList (.str "L".toList) (by simp) (by decide)
+example : lookup k!"label" (reloadSlots [k!"name", k!"label"]
+    (ownDump [k!"extra_data"] [(k!"name", .str k!"g"), (k!"label", .str k!"L")]))
+    = some (.str k!"L") := by
+  have := survey_json_roundtrip_slots [k!"extra_data"] [(k!"name", .str k!"g"), (k!"label", .str k!"L")]
+    (by decide) k!"label" (.str k!"L") (by simp) (by decide)
   simpa [truthy] using this
 
 /-- a key in the delete list comes back falsy unless a class override restores it (general lemma; it is what
@@ -109,26 +111,26 @@ theorem deleted_key_lost (del : List Str) (slots : Dict) (hn : (slots.map Prod.f
   rw [reloadSlots_ownDump del slots hn, lookup_map_snd _ slots hn k v hm]
   simp [keeps, hk]
 
-example : lookup "extra_data".toList (reloadSlots ["name".toList, "extra_data".toList]
-    (ownDump (allDelete .option ["name".toList, "extra_data".toList] [] ["parent".toList])
-      [("name".toList, .str "a".toList), ("extra_data".toList, .obj [("pop".toList, .str "1".toList)])]))
+example : lookup k!"extra_data" (reloadSlots [k!"name", k!"extra_data"]
+    (ownDump (allDelete .option [k!"name", k!"extra_data"] [] [k!"parent"])
+      [(k!"name", .str k!"a"), (k!"extra_data", .obj [(k!"pop", .str k!"1")])]))
     = some .null :=
-  deleted_key_lost _ _ (by decide) _ (.obj [("pop".toList, .str "1".toList)]) (by simp) (by decide)
+  deleted_key_lost _ _ (by decide) _ (.obj [(k!"pop", .str k!"1")]) (by simp) (by decide)
 
 /-- group logic is kept (fix cecbf61): a group's `bind` is not in what `GroupedSection.to_json_dict` deletes,
     so it survives dump + reload — `relevant`, `readonly`, `required`, `constraint`, messages, `bind::x`. -/
 theorem group_bind_survives (slots : Dict) (hn : (slots.map Prod.fst).Nodup) (qtd : List Str)
-    (v : J) (hm : ("bind".toList, v) ∈ slots) (ht : truthy v = true) :
-    lookup "bind".toList (reloadSlots (slots.map Prod.fst)
-      (ownDump (allDelete .group (slots.map Prod.fst) qtd ["parent".toList]) slots)) = some v := by
-  have := survey_json_roundtrip_slots (allDelete .group (slots.map Prod.fst) qtd ["parent".toList]) slots hn
-    "bind".toList v hm (by simp [allDelete, clsDelete])
+    (v : J) (hm : (k!"bind", v) ∈ slots) (ht : truthy v = true) :
+    lookup k!"bind" (reloadSlots (slots.map Prod.fst)
+      (ownDump (allDelete .group (slots.map Prod.fst) qtd [k!"parent"]) slots)) = some v := by
+  have := survey_json_roundtrip_slots (allDelete .group (slots.map Prod.fst) qtd [k!"parent"]) slots hn
+    k!"bind" v hm (by simp [allDelete, clsDelete])
   simpa [ht] using this
 
-example : lookup "bind".toList (reloadSlots ["name".toList, "bind".toList]
-    (ownDump (allDelete .group ["name".toList, "bind".toList] [] ["parent".toList])
-      [("name".toList, .str "g".toList), ("bind".toList, .obj [("relevant".toList, .str "1 = 1".toList)])]))
-    = some (.obj [("relevant".toList, .str "1 = 1".toList)]) :=
+example : lookup k!"bind" (reloadSlots [k!"name", k!"bind"]
+    (ownDump (allDelete .group [k!"name", k!"bind"] [] [k!"parent"])
+      [(k!"name", .str k!"g"), (k!"bind", .obj [(k!"relevant", .str k!"1 = 1")])]))
+    = some (.obj [(k!"relevant", .str k!"1 = 1")]) :=
   group_bind_survives _ (by decide) [] _ (by simp) (by simp [truthy])
 
 /-- extra choice columns are kept (fix d15eb33): the `extra_data` of an Option rebuilt from its dump is the
@@ -138,7 +140,7 @@ theorem option_extra_survives (slots extra : Dict) (hn : (extra.map Prod.fst).No
     (hd : ∀ k ∈ extra.map Prod.fst, k ∉ slots.map Prod.fst) :
     (reloadOption (slots.map Prod.fst) (optionDump (slots, extra))).2 = extra.filter fun kv => truthy kv.2 := by
   simp only [reloadOption, optionDump]
-  have hsub := ownDump_keys_subset (allDelete .option (slots.map Prod.fst) [] ["parent".toList]) slots
+  have hsub := ownDump_keys_subset (allDelete .option (slots.map Prod.fst) [] [k!"parent"]) slots
   rw [restoreExtra_fresh extra _ hn (fun k hk hin => hd k hk (hsub k hin))]
   apply reloadExtra_append _ _ _ hsub
   intro k hk
@@ -146,11 +148,11 @@ theorem option_extra_survives (slots extra : Dict) (hn : (extra.map Prod.fst).No
   obtain ⟨kv, ⟨hkv, _⟩, e⟩ := hk
   exact hd k (List.mem_map.mpr ⟨kv, hkv, e⟩)
 
-example : (reloadOption ["name".toList, "label".toList]
-    (optionDump ([("name".toList, .str "a".toList), ("label".toList, .str "A".toList)],
-      [("pop".toList, .str "1".toList), ("empty".toList, .str [])]))).2 = [("pop".toList, .str "1".toList)] := by
-  have := option_extra_survives [("name".toList, .str "a".toList), ("label".toList, .str "A".toList)]
-    [("pop".toList, .str "1".toList), ("empty".toList, .str [])] (by decide) (by decide)
+example : (reloadOption [k!"name", k!"label"]
+    (optionDump ([(k!"name", .str k!"a"), (k!"label", .str k!"A")],
+      [(k!"pop", .str k!"1"), (k!"empty", .str [])]))).2 = [(k!"pop", .str k!"1")] := by
+  have := option_extra_survives [(k!"name", .str k!"a"), (k!"label", .str k!"A")]
+    [(k!"pop", .str k!"1"), (k!"empty", .str [])] (by decide) (by decide)
   simpa [truthy] using this
 
 /-- a user's hint on a type whose type-table entry has a hint is kept (fix 86e7ba3): whatever truthy value the
@@ -168,9 +170,9 @@ theorem user_hint_survives (slots d : Dict) (k v : Str) (value : J)
       simp [hne, reloadScalar, hd]
     | _ => simp [neStr] at hne
 
-example : reloadScalar "hint".toList "Enter numbers only.".toList
-    (restoreScalars [("hint".toList, .str "my hint".toList)] [("hint".toList, "Enter numbers only.".toList)]
-      [("name".toList, .str "p".toList)]) = .str "my hint".toList :=
+example : reloadScalar k!"hint" k!"Enter numbers only."
+    (restoreScalars [(k!"hint", .str k!"my hint")] [(k!"hint", k!"Enter numbers only.")]
+      [(k!"name", .str k!"p")]) = .str k!"my hint" :=
   user_hint_survives _ _ _ _ _ rfl (by simp [truthy]) (by decide)
 
 /-- facts about the tables regenerated from /repo on every run: `bind` is a slot of sections, and exactly four
@@ -181,5 +183,66 @@ theorem types_with_table_hint :
     (Gen.questionTypes.filter fun e => e.2.any fun t => t.1 == "" && t.2.1 == "hint").map Prod.fst =
       ["number of days in last month", "number of days in last six months", "phone number",
        "number of days in last year"] := by decide +kernel
+
+
+/-!
+Part 3: whole trees.  `ToJson.fromJson` is the model of `builder.create_survey_element_from_dict` on the
+fragment described in `Model/FromJson.lean`; `ToJson.toJson (fromJson d)` is compared with the dump of the
+really reloaded survey on every generated form that falls inside the fragment.
+-/
+
+/-- the facts about the regenerated slot tuples that the section part of the tree theorem uses (re-checked
+    against the current source on every run). -/
+theorem genCfg_secOk : SecOk genCfg := by
+  constructor <;> decide +kernel
+
+/-- dump, load, dump on whole element trees (PARTIAL: the hypothesis `QStable cfg` — own-level stability of a
+    question through `Question.__init__`'s type-table merge, `_qtd_kwargs` and the non-dict defaults — is proof
+    debt, not a defect: it is not proved here; it is checked by the correspondence run on every generated
+    question).  For every dict `d` the builder model accepts — surveys, groups, repeats nested to any depth,
+    any slot values — the survey it builds dumps to a dict that the builder accepts again, and the survey
+    built from that dumps to the same dict (keys, order, values). -/
+theorem dump_stable_tree_partial (cfg : Cfg) (ok : SecOk cfg) (hq : QStable cfg) (f : Nat) (d : J) (e : El)
+    (h : fromJson cfg f d = some e) :
+    ∃ e', fromJson cfg f (toJson e []) = some e' ∧ toJson e' [] = toJson e [] := by
+  obtain ⟨e', h1, h2⟩ := stable_all cfg ok hq f d e h [] (by simp)
+  exact ⟨e', h1, h2 [] (by simp)⟩
+
+/-- …composed with the text layer: dump, `json.dumps`, `json.loads`, build, dump gives the same dict
+    (`UniqueKeys`: the dump is a nest of Python dicts). -/
+theorem text_tree_roundtrip_partial (cfg : Cfg) (ok : SecOk cfg) (hq : QStable cfg) (f : Nat) (d : J) (e : El)
+    (h : fromJson cfg f d = some e) (hu : UniqueKeys (toJson e [])) :
+    ∃ e', (parse (print (toJson e []))).bind (fromJson cfg f) = some e' ∧ toJson e' [] = toJson e [] := by
+  rw [loads_dumps _ hu]
+  exact dump_stable_tree_partial cfg ok hq f d e h
+
+/-- a configuration without question types: sections only; there `QStable` holds trivially and the two
+    theorems are unconditional. -/
+def sectionsOnly : Cfg where
+  surveyNames := [k!"name", k!"label", k!"type", k!"title", k!"version"]
+  sectionNames := [k!"name", k!"label", k!"bind", k!"type"]
+  questionNames := []
+  selectNames := []
+  qtd := []
+  selectTags := []
+  knownTags := []
+
+theorem sectionsOnly_qstable : QStable sectionsOnly := by
+  intro t kvs e h
+  simp only [questionFromJson, sectionsOnly, lookup] at h
+  split at h
+  · cases h
+  · split at h <;> cases h
+
+example : ∃ e e', fromJson sectionsOnly 3 (.obj [(k!"type", .str k!"survey"), (k!"name", .str k!"data"),
+      (k!"version", .str k!"3"), (k!"children", .arr [.obj [(k!"name", .str k!"g"), (k!"type", .str k!"group"),
+        (k!"bind", .obj [(k!"relevant", .str k!"1 = 1")]), (k!"junk", .null)]])]) = some e ∧
+    fromJson sectionsOnly 3 (toJson e []) = some e' ∧ toJson e' [] = toJson e [] := by
+  have hsome : (fromJson sectionsOnly 3 (.obj [(k!"type", .str k!"survey"), (k!"name", .str k!"data"),
+      (k!"version", .str k!"3"), (k!"children", .arr [.obj [(k!"name", .str k!"g"), (k!"type", .str k!"group"),
+        (k!"bind", .obj [(k!"relevant", .str k!"1 = 1")]), (k!"junk", .null)]])])).isSome = true := by decide
+  obtain ⟨e, he⟩ := Option.isSome_iff_exists.mp hsome
+  obtain ⟨e', h1, h2⟩ := dump_stable_tree_partial sectionsOnly (by constructor <;> decide) sectionsOnly_qstable 3 _ e he
+  exact ⟨e, e', he, h1, h2⟩
 
 end Pyxv.C16
